@@ -68,7 +68,8 @@ def handle(job):
             rel = float((np.abs(got - want)[~zero] / np.abs(want[~zero])).max())
             if not np.isfinite(rel):
               rel = float("inf")
-            res["worst_upd"] = max(res["worst_upd"], rel) if rel <= UPD_TOL else res["worst_upd"]
+            if rel <= UPD_TOL:
+              res["worst_upd"] = max(res["worst_upd"], rel)
             if rel > UPD_TOL:
               mm.append({"clause": "update_is_not_lr_g_over_sqrt_nu",
                          "detail": {"rel": rel, "got": got.tolist(), "want": want.tolist()}})
